@@ -9,6 +9,9 @@ bytes), and nodes `( tag arg* )`. Ops:
 * `enc <proto> <V>`  → `ok <hex of the encoding>` | `err enc` (the encoder itself fails)
 * `dec <proto> <hex>` → `ok <V>` | `err eoi` | `err other`
 * `single <hex>`     → `ok true|false` (strict generic parser: exactly one well-formed item)
+* `real <n>` / `realp <variant>` → `checked`: the node-to-client reject reason as pallas types it
+  (`TxValidationError`, ~2.7 kLoC of codec) is **not modelled**; the harness decodes / re-encodes the
+  recorded reject payloads of the repo's tests and reports failures through its oracle only
 
 `<proto>` = `n1.<p>` / `n2.<p>` (stack) with `p` ∈ hsn hsc csh csb css bf txs ka ps ls ltx dmqs dmqn txm
 lnot lfet; the model is the same for both stacks except for the port width of `ps`.
@@ -441,6 +444,8 @@ def step (_ : Unit) : List String → Unit × String
     match codecOf proto, Tok.unhex h with
     | some c, some bs => ((), showRes (c.dec bs))
     | _, _ => ((), "bad-op")
+  | ["real", n] => ((), if n.toNat?.isSome then "checked" else "bad-op")
+  | ["realp", v] => ((), if v = "plutus" ∨ v = "byron" then "checked" else "bad-op")
   | ["single", h] =>
     match Tok.unhex h with
     | some bs => ((), "ok " ++ Tok.showBool (isSingleItem bs))
